@@ -93,7 +93,10 @@ SCOPE = (
     "1..5 rows x 1 column and 1..3 rows x 2 columns (quick: a quarter of the >= 5-entry ones), and "
     "Y = RecurrencePlot.legendre_coordinates(x, dim 1..4, p / tau_w given / estimated, regular and "
     "irregular t) of seeded series of length 8..40 (the values of legendre_coordinates are not "
-    "judged)."
+    "judged).  Rejections (checks '<Class>/rejects/...'): 6 (thorough 30) seeded integer series of "
+    "length 3..8: every class without any threshold / rate argument, joint plots / networks of series "
+    "of different lengths (either one shorter), inter-system networks of a 1-d and a 2-d series must "
+    "raise instead of constructing an object."
 )
 RULE = (
     "one evaluation = one contract clause group on one constructed object (sizes, embedding, "
@@ -853,7 +856,36 @@ def run_normstatic(rep, C, w):
                  f"sample std also accepted)")
 
 
-RUNNERS = {"normalize_time_series": run_normstatic, "RecurrencePlot": run_rp, "RecurrenceNetwork": run_rp, "CrossRecurrencePlot": run_crp,
+def run_rejects(rep, C, w):
+    """Argument sets for which no matrix of the stated form exists must be rejected with an
+    exception, not answered with some matrix: no threshold / rate of any kind; joint plots and
+    networks of series of different lengths (the joint matrix is the entrywise product of two
+    matrices of one common size); inter-system networks of series of different dimensions (the
+    cross block needs distances between x- and y-states)."""
+    cname, what = w["target"], w["what"]
+    cls = C[cname]
+    x = np.array(w["x"], dtype=np.float64)
+    y = np.array(w["y"], dtype=np.float64)
+    rep.case(repr(("rejects", cname, what, w["x"], w["y"])), nontrivial=True)
+    two = cname != "RecurrencePlot" and cname != "RecurrenceNetwork"
+    k = {"CrossRecurrencePlot": 1, "InterSystemRecurrenceNetwork": 3}.get(cname, 2 if two else 1)
+    thr = 1.5 if k == 1 else (1.5,) * k
+    kw = dict(silence_level=3)
+    if what != "no-threshold":
+        kw["threshold"] = thr
+    try:
+        obj = cls(x, y, **kw) if two else cls(x, **kw)
+    except Exception:                                            # noqa: BLE001
+        return
+    R = None
+    try:
+        R = np.asarray(obj.recurrence_matrix() if hasattr(obj, "recurrence_matrix") else obj.adjacency).tolist()
+    except Exception:                                            # noqa: BLE001
+        pass
+    rep.fail(f"{cname}/rejects/{what}", w, f"constructed an object (matrix {R}) instead of raising")
+
+
+RUNNERS = {"rejects": run_rejects, "normalize_time_series": run_normstatic, "RecurrencePlot": run_rp, "RecurrenceNetwork": run_rp, "CrossRecurrencePlot": run_crp,
            "JointRecurrencePlot": run_jrp, "JointRecurrenceNetwork": run_jrp,
            "InterSystemRecurrenceNetwork": run_isrn}
 
@@ -1238,6 +1270,21 @@ def cases(tier, seed):
         if emb:
             w.update(dim=[emb[0][0], emb[0][1]], tau=[emb[1][0], emb[1][1]])
         yield w
+    # ---- argument sets without a matrix of the stated form: must be rejected
+    rrng = np.random.RandomState(seed + 4242)
+    for k in range(30 if T else 6):
+        n = 3 + int(rrng.randint(6))
+        xs = rrng.randint(0, 5, n).astype(float).tolist()
+        ys = rrng.randint(0, 5, n).astype(float).tolist()
+        for target in ("RecurrencePlot", "RecurrenceNetwork", "CrossRecurrencePlot", "JointRecurrencePlot",
+                       "JointRecurrenceNetwork", "InterSystemRecurrenceNetwork"):
+            yield {"cls": "rejects", "target": target, "what": "no-threshold", "x": xs, "y": ys}
+        m = 1 + int(rrng.randint(n - 1))                         # 1 <= m < n
+        for target in ("JointRecurrencePlot", "JointRecurrenceNetwork"):
+            yield {"cls": "rejects", "target": target, "what": "unequal-lengths", "x": xs, "y": ys[:m]}
+            yield {"cls": "rejects", "target": target, "what": "unequal-lengths", "x": xs[:m], "y": ys}
+        yield {"cls": "rejects", "target": "InterSystemRecurrenceNetwork", "what": "unequal-dimensions",
+               "x": [[v] for v in xs], "y": [[v, v + 1.0] for v in ys[:m + 1]]}
     # ---- random larger with normalize=True
     for k in range(nr):
         n = 6 + rng.randint(35)
